@@ -43,6 +43,9 @@ fn fake_ptr(i: usize) -> FuncPtr {
 #[derive(Serialize, Deserialize, Clone, Debug, Hash, PartialEq, Eq)]
 pub enum TOp {
     Injector { calls: u8, exit_panic: bool },
+    /// like Injector, with `extra` further fakes installed first and one call-count expectation
+    /// left unmet, so that the scope is left through the verification panic
+    InjectorUnmet { calls: u8, extra: u8 },
     Preventer { calls: u8, exit_panic: bool },
     Spin(u16),
 }
@@ -87,8 +90,68 @@ impl Drop for Holding {
     }
 }
 
+static TIMES_T: std::sync::atomic::AtomicUsize = std::sync::atomic::AtomicUsize::new(1);
+
+macro_rules! filler {
+    ($($n:ident),*) => { $( #[inline(never)] fn $n() -> u64 { black_box(900) } )* };
+}
+filler!(fl0, fl1, fl2, fl3, fl4, fl5, fl6, fl7, fl8, fl9, fl10, fl11);
+#[inline(never)]
+fn counted_target() -> u64 {
+    black_box(55)
+}
+
+fn install_filler(inj: &mut InjectorPP, i: usize) {
+    let fp = match i % 12 {
+        0 => injectorpp::func!(fn (fl0)() -> u64),
+        1 => injectorpp::func!(fn (fl1)() -> u64),
+        2 => injectorpp::func!(fn (fl2)() -> u64),
+        3 => injectorpp::func!(fn (fl3)() -> u64),
+        4 => injectorpp::func!(fn (fl4)() -> u64),
+        5 => injectorpp::func!(fn (fl5)() -> u64),
+        6 => injectorpp::func!(fn (fl6)() -> u64),
+        7 => injectorpp::func!(fn (fl7)() -> u64),
+        8 => injectorpp::func!(fn (fl8)() -> u64),
+        9 => injectorpp::func!(fn (fl9)() -> u64),
+        10 => injectorpp::func!(fn (fl10)() -> u64),
+        _ => injectorpp::func!(fn (fl11)() -> u64),
+    };
+    inj.when_called(fp).will_execute_raw(injectorpp::func!(fn (tf0)() -> u64));
+}
+
 fn run_op(t: usize, op: &TOp, foreign: &std::sync::Mutex<Vec<String>>) -> Result<(), String> {
     match op {
+        TOp::InjectorUnmet { calls, extra } => {
+            let r = std::panic::catch_unwind(|| {
+                if HOLDERS.load(SeqCst) > 0 {
+                    CONTENDED.fetch_add(1, SeqCst);
+                }
+                let mut inj = ip::sut(InjectorPP::new);
+                let _h = Holding::enter();
+                ip::sut(|| {
+                    for i in 0..(*extra as usize).min(12) {
+                        install_filler(&mut inj, i);
+                    }
+                    inj.when_called(injectorpp::func!(fn (shared_fn)() -> u64)).will_execute_raw(fake_ptr(t));
+                    // an expectation that stays unmet: counted_target is never called
+                    inj.when_called(injectorpp::func!(fn (counted_target)() -> u64)).will_execute(injectorpp::fake!(func_type: fn() -> u64, returns: 56, times: TIMES_T.load(SeqCst)));
+                });
+                for _ in 0..*calls {
+                    let v = shared_fn();
+                    if v != 100 + (t as u64 % 8) {
+                        foreign.lock().unwrap().push(format!("thread {t} holding an injector with its fake {} saw {v}", 100 + t % 8));
+                    }
+                }
+                drop(_h);
+                // leaves the scope through the call-count verification panic
+                ip::sut(|| drop(inj));
+            });
+            match r {
+                Err(_) if crate::worker::last_panic().contains("expected to be called") => Ok(()),
+                Err(_) => Err(format!("thread {t}: injector operation panicked: {}", crate::worker::last_panic())),
+                Ok(()) => Err(format!("thread {t}: scope exit with an unmet expectation did not panic")),
+            }
+        }
         TOp::Spin(k) => {
             for _ in 0..*k {
                 std::hint::spin_loop();
@@ -239,6 +302,7 @@ pub fn execute(c: &ThreadCase) -> ThreadObs {
             kinds.insert(match op {
                 TOp::Injector { exit_panic: false, .. } => "injector/drop",
                 TOp::Injector { exit_panic: true, .. } => "injector/panic",
+                TOp::InjectorUnmet { .. } => "injector/verification-panic",
                 TOp::Preventer { exit_panic: false, .. } => "preventer/drop",
                 TOp::Preventer { exit_panic: true, .. } => "preventer/panic",
                 TOp::Spin(_) => "spin",
@@ -256,6 +320,7 @@ pub fn execute(c: &ThreadCase) -> ThreadObs {
 pub fn strategy() -> impl Strategy<Value = ThreadCase> {
     let op = prop_oneof![
         4 => (0u8..4, prop::bool::weighted(0.25)).prop_map(|(calls, exit_panic)| TOp::Injector { calls, exit_panic }),
+        2 => (0u8..3, 0u8..=12).prop_map(|(calls, extra)| TOp::InjectorUnmet { calls, extra }),
         3 => (0u8..6, prop::bool::weighted(0.25)).prop_map(|(calls, exit_panic)| TOp::Preventer { calls, exit_panic }),
         1 => (0u16..400).prop_map(TOp::Spin),
     ];
@@ -318,7 +383,10 @@ pub fn judge(rec: &mut Recorder, c: &ThreadCase, ex: Exec, _hello: &Value) -> Re
     rec.count("contended_acquisitions", o.contended);
     rec.count("pauses_taken", o.pauses_taken);
     let both_kinds = o.kinds.iter().any(|k| k.starts_with("injector")) && o.kinds.iter().any(|k| k.starts_with("preventer"));
-    let both_exits = o.kinds.iter().any(|k| k.ends_with("/panic")) && o.kinds.iter().any(|k| k.ends_with("/drop"));
+    let both_exits = o.kinds.iter().any(|k| k.ends_with("panic")) && o.kinds.iter().any(|k| k.ends_with("/drop"));
+    if o.kinds.iter().any(|k| k == "injector/verification-panic") {
+        rec.class("has-exit-by-verification-panic");
+    }
     rec.class(&format!("threads={}{}{}{}", c.scripts.len(), if o.contended > 0 { "/contended" } else { "" }, if both_kinds { "/both-kinds" } else { "" }, if both_exits { "/both-exits" } else { "" }));
     if o.contended > 0 && both_kinds && both_exits {
         rec.nontrivial(&c.scripts);
